@@ -39,7 +39,7 @@ def required_fired(prop):
 
 
 SEPS = [' ', ' ', ';', ', ', '\t', ',']
-COMMENTS = ['#', '#', '%', '//', '!']
+COMMENTS = ['#', '#', '%', '//', '!', '*', '.', '$', '|', '+', '(', '[', '^']   # any string may be the comment marker
 
 _TMP = [None]
 
@@ -114,6 +114,9 @@ def _generate(prop, rng, tier, force_fault_free=False):
         if r < 0.27:
             ntr = rng.randint(1, 6)
             trains = [gen.gen_spikes(rng, wp, nmax=10) for _ in range(ntr)]
+            if rng.random() < 0.01:
+                # scale: one train of several hundred spikes (block-wise writers, long lines)
+                trains[rng.randrange(ntr)] = sorted(set(e[0] + rng.random() * wp['T'] for _k in range(rng.randint(513, 700))))
             ops.append({'op': 'save', 'path': path, 'trains': trains, 'sep': rng.choice(SEPS),
                         'prec': rng.choice([8, 8, 1, 2, 3, 5, 12, 16, 17, 17, 18, 20]),
                         'defaults': rng.random() < 0.2})
@@ -298,6 +301,7 @@ def _exec(spk, rec, op, fs, plan, acked, hand, e):
               'ignore_empty_lines': op['ignore_empty']}
         status = 'ok'
         res = None
+        fired_before = dict(plan.fired)
         with captured_stdout():
             try:
                 res = spk.load_spike_trains_from_txt(path, edges, **kw)
@@ -305,7 +309,19 @@ def _exec(spk, rec, op, fs, plan, acked, hand, e):
                 status = 'crash'
             except Exception as ex:
                 status = 'exc:' + type(ex).__name__
+                load_exc = ex
         rec.log(('load', path, status, digest(norm(res))))
+        if status.startswith('exc') and src is not None and op['match'] and \
+                all(plan.fired[k] == fired_before[k] for k in FAULT_KINDS):
+            # no fault was injected into this load, the file was acknowledged (or written by hand in the
+            # documented format) and is read with its own separator and comment marker: it must load
+            rec.compared += 1
+            rec.violate('C19.load_raised_on_healthy_disk',
+                        {'op': op, 'load_kw': kw, 'exception': norm(load_exc),
+                         'file': fs.get(path).decode('utf-8', 'replace')[:400],
+                         'source': 'saved' if path in acked else 'hand-written'},
+                        {'op': 'load', 'source': 'saved' if path in acked else 'hand', 'exc': type(load_exc).__name__})
+            return
         if status != 'ok' or src is None or not op['match']:
             return
         if path in acked and comment != '#':
